@@ -312,6 +312,51 @@ pub fn run(ctx: &Ctx) {
         },
         check_round,
     );
+    {
+        // values next to a power of ten, rounded so that only the leading digit (or nothing) survives: digit-count
+        // estimates derived from the bit length are at their weakest right above 10^k
+        let max_k = t.pick(3000u64, 6000);
+        ctx.enumerated(
+            "powers-of-ten-keep-leading",
+            "round",
+            (max_k + 1) * 4 * 3 * 7,
+            true,
+            &format!("EXHAUSTIVE: 10^k, 10^k+1, 2*10^k-1, 10^k-1 for every k 0..={} x target keeping one digit / none / two x 7 modes (sign alternates)", max_k),
+            move |i| {
+                let mut j = i;
+                let mode = (j % 7) as u8;
+                j /= 7;
+                let keep = (j % 3) as i64; // digits kept: 1, 0, 2
+                j /= 3;
+                let form = j % 4;
+                let k = (j / 4) as usize;
+                let digits = match form {
+                    0 => format!("1{}", "0".repeat(k)),
+                    1 => {
+                        if k == 0 {
+                            "2".to_string()
+                        } else {
+                            format!("1{}1", "0".repeat(k - 1))
+                        }
+                    }
+                    2 => format!("1{}", "9".repeat(k)),
+                    _ => {
+                        if k == 0 {
+                            "9".to_string()
+                        } else {
+                            "9".repeat(k)
+                        }
+                    }
+                };
+                let nd = digits.len() as i64;
+                let scale = [0i64, 7, -3][(k % 3) as usize];
+                let keep = [1i64, 0, 2][keep as usize];
+                let neg = (i / 7) % 2 == 1;
+                Some(RoundCase { d: D::new(if neg { format!("-{}", digits) } else { digits }, scale), new_scale: scale - nd + keep, mode })
+            },
+            check_round,
+        );
+    }
     let max_len = t.pick(600usize, 3000);
     ctx.generated(
         "random-tails",
